@@ -117,15 +117,16 @@ func SoundApply(ch *Chain, b types.Block, bs consensus.V1BlockSupplement, legacy
 		if delta.Cmp(want) != 0 {
 			return true, fmt.Errorf("accepted block changes the total supply by %s, scheduled subsidy is %s (difference %s)", delta, want, new(big.Int).Sub(delta, want))
 		}
-		var sfB, sfA uint64
+		// summed without wrap-around: outputs of 2^63 siafunds each must not cancel in the oracle's own arithmetic
+		sfB, sfA := new(big.Int), new(big.Int)
 		for _, e := range before.SF {
-			sfB += e.SiafundOutput.Value
+			sfB.Add(sfB, new(big.Int).SetUint64(e.SiafundOutput.Value))
 		}
 		for _, e := range after.SF {
-			sfA += e.SiafundOutput.Value
+			sfA.Add(sfA, new(big.Int).SetUint64(e.SiafundOutput.Value))
 		}
-		if sfA != sfB {
-			return true, fmt.Errorf("accepted block changes the number of siafunds from %d to %d", sfB, sfA)
+		if sfA.Cmp(sfB) != 0 {
+			return true, fmt.Errorf("accepted block changes the number of siafunds from %s to %s", sfB, sfA)
 		}
 	}
 	// revert must restore the store
